@@ -54,7 +54,9 @@ Definition check_case (c : pcase) : list N :=
    codes: 1 matches<>values  2 substituted-back pattern does not match
           3 substituted-back pattern <> name (no anonymous wildcards)
           4 Matches(p,q) true but some name of q does not match p
-          5 id -> rid -> id is not the identity *)
+          5 id -> rid -> id is not the identity
+          6 a string accepted as a name part is rejected as a resource id (validators disagree; theorem
+            valid_part_is_valid_rid) *)
 Definition viol_case (c : pcase) : list N :=
   let okp := g_valid_p c in
   let oks := no_gt_start (cs c) in
@@ -64,7 +66,8 @@ Definition viol_case (c : pcase) : list N :=
       && negb (beq (g_repl c) (cs c)) then [3] else []) ++
   (if okp && g_matches c && g_cover_cex c then [4] else []) ++
   (if okp && is_valid_part (cval c) && existsb (beq (ctag c)) (tag_names (cp c))
-      && nodupb (tag_names (cp c)) && negb (obeq (g_id_back c) (Some (cval c))) then [5] else []).
+      && nodupb (tag_names (cp c)) && negb (obeq (g_id_back c) (Some (cval c))) then [5] else []) ++
+  (if g_part_s c && negb (g_rid_s c) then [6] else []).
 
 Fixpoint run_idx {A} (f : A -> list N) (i : N) (cs : list A) : list (N * N) :=
   match cs with
